@@ -441,6 +441,14 @@ def _gen_cases(rng: Rng, tier):
         for a, b, x, y in rng.sample(combos, min(len(combos), 14 if tier == "quick" else 150)):
             yield dict(kind="shared", subject=kind, seed=seeds[0], a=[a[1], a[2], x], b=[b[1], b[2], y])
     yield from gen_estimator_cases(rng, tier)
+    # the same method twice on ONE object with DIFFERENT arguments: every returned array is kept
+    for (kind, m, oi) in calls:
+        nopt = len(ARGS.get((kind, m), [{}]))
+        if nopt >= 2 and oi == 0:
+            for i in range(nopt):
+                for j in range(nopt):
+                    if i != j:
+                        yield dict(kind="twice", subject=kind, seed=seeds[0], method=m, a=i, b=j)
     # a REFIT that fails (every naturally rejected configuration, every internal step made to fail in turn) must leave
     # an already fitted estimator as it was; the container constructors must copy the builtin container they are given
     for est in ("ufpca_cov", "ufpca_inpro", "mfpca_cov", "mfpca_inpro", "fcptpa", "psplines1", "psplines2"):
@@ -759,6 +767,36 @@ def _shared(case):
             if d:
                 viol.append(_viol("repeatable", entry, f"{mb} on the {xb} after {ma} on the {xa} differs from the same call on fresh objects at {d[:3]}", ["state_leak", "shared_cells"]))
     return dict(status_a="ok" if exc_a is None else "error:" + err_class(exc_a), status_b="ok" if exc_b is None else "error:" + err_class(exc_b), viol=viol)
+
+
+def _twice(case):
+    """call with option set A, keep the result and a snapshot; call with option set B on the same object: the first
+    result must be what it was, and the two results may share memory only where they share it with the inputs"""
+    kind, seed, method = case["subject"], case["seed"], case["method"]
+    entry = _entry(kind, method)
+    viol = []
+    subject = make_subject(kind, seed)
+    _, extra_a, res_a, exc_a = call_method(kind, seed, method, case["a"], subject)
+    if exc_a is not None:
+        return dict(status_a="error:" + err_class(exc_a), status_b="-", viol=viol)
+    snap_a = U.deep(res_a, skip_cache=False)
+    _, extra_b, res_b, exc_b = call_method(kind, seed, method, case["b"], subject)
+    d = U.diff_paths(snap_a, U.deep(res_a, skip_cache=False))
+    if d:
+        viol.append(_viol("earlier_results_unchanged", entry, f"a second {method} with other arguments (option set {case['b']}) changed the result returned by the first (option set {case['a']}) at {d[:3]}",
+                          ["result_mutated", "second_call_other_arguments"]))
+    if exc_b is None:
+        ins = [a for o in [subject] + [x for _, x in extra_a] + [x for _, x in extra_b] for a in U.arrays_of(o)]
+        for x in U.arrays_of(res_a):
+            for y in U.arrays_of(res_b):
+                if x.size and y.size and np.shares_memory(x, y) and not any(np.shares_memory(x, i) for i in ins if i.size):
+                    viol.append(_viol("result_independent", entry, f"the results of two {method} calls with different arguments share memory that is not the inputs': the later call works in the buffer handed out earlier",
+                                      ["shared_result", "second_call_other_arguments"]))
+                    break
+            else:
+                continue
+            break
+    return dict(status_a="ok", status_b="ok" if exc_b is None else "error:" + err_class(exc_b), viol=_dedupe(viol))
 
 
 # ---- container constructors ---------------------------------------------------
@@ -1611,13 +1649,15 @@ def run_impl(case):
         out = _pair(case)
     elif case["kind"] == "shared":
         out = _shared(case)
+    elif case["kind"] == "twice":
+        out = _twice(case)
     elif case["kind"] == "refit":
         out = _refit(case)
     elif case["kind"] == "ctor":
         out = _ctor(case)
     else:
         out = _est(case)
-    entry = out.get("entry") or (f"{_class_of(case['subject']).__name__}.{case['b'][0]}" if case["kind"] in ("pair", "shared") else f"{case.get('est') or case.get('ctor')}")
+    entry = out.get("entry") or (f"{_class_of(case['subject']).__name__}.{case['b'][0]}" if case["kind"] in ("pair", "shared") else (f"{_class_of(case['subject']).__name__}.{case['method']}" if case["kind"] == "twice" else f"{case.get('est') or case.get('ctor')}"))
     out["viol"] = list(out.get("viol", [])) + _function_state_violation(entry, state_before)
     return out
 
@@ -1706,7 +1746,7 @@ def nontrivial(case, impl):
         return None
     if case["kind"] == "single":
         return f"{case['subject']}.{case['method']}.{case['opt']}.{case['seed']}" if impl.get("status") == "ok" else None
-    if case["kind"] in ("pair", "shared"):
+    if case["kind"] in ("pair", "shared", "twice"):
         return digest(case) if impl.get("status_b") == "ok" else None
     return digest(case)
 
@@ -1731,7 +1771,7 @@ def classify(case, impl):
             tags.append("size_threshold:" + case["subject"].split(":")[1])
         tags.append("status:" + impl["status"])
         tags.append("modelled" if skeleton_of(case) else "unmodelled:" + _entry(case["subject"], case["method"]))
-    elif case["kind"] in ("pair", "shared"):
+    elif case["kind"] in ("pair", "shared", "twice"):
         tags.append("subject:" + case["subject"])
         tags.append("pair_status:" + impl["status_a"].split(":")[0] + "/" + impl["status_b"].split(":")[0])
     elif case["kind"] in ("refit", "ctor"):
